@@ -25,9 +25,13 @@ type SourceMap struct {
 }
 
 func (sm *SourceMap) AddSymbolRange(src Range, tgt Range) {
-	sm.SourceSymbolRangeToTarget[src.From.Line] = make(map[uint32]Range)
+	if _, ok := sm.SourceSymbolRangeToTarget[src.From.Line]; !ok {
+		sm.SourceSymbolRangeToTarget[src.From.Line] = make(map[uint32]Range)
+	}
 	sm.SourceSymbolRangeToTarget[src.From.Line][src.From.Col] = tgt
-	sm.TargetSymbolRangeToSource[tgt.From.Line] = make(map[uint32]Range)
+	if _, ok := sm.TargetSymbolRangeToSource[tgt.From.Line]; !ok {
+		sm.TargetSymbolRangeToSource[tgt.From.Line] = make(map[uint32]Range)
+	}
 	sm.TargetSymbolRangeToSource[tgt.From.Line][tgt.From.Col] = src
 }
 
